@@ -24,6 +24,9 @@ Extracted (None = pattern not recognised -> `extraction_failed`):
                           Blocked and keep the rest (`deferred_frames`) ?
   * serve_after_script    does `process_normal_command` serve the blocked keys of the database after EVAL / RENAME
                           (`blocked_keys(db)` + `serve_key`) ?  No Lean switch (outside the model); for lib/c13.py.
+  * sweep_commands        the command names after which `process_normal_command` runs that sweep; exec_sweep_commands: the
+                          queued command names after which `handle_exec` sweeps the database.  Consumed by the table theorem
+                          `Ferrous.C13.sweep_covers_scripts_and_rename` (EVAL, EVALSHA, RENAME, RENAMENX must be in both).
   * exec_atomic           do the LPUSH / RPUSH arms skip the notification when `conn_id == 0` (run by EXEC), is the
                           drain skipped too, and does `handle_exec` call `serve_key` for the pushed keys afterwards ?
 """
@@ -46,7 +49,8 @@ def _arm(text, name):
 
 def facts(src, strip_comments, fn_body):
     out = {"wake_batch": None, "notify_per_element": None, "wake_at_push": None, "unregister_all": None, "refuse_in_tx": None, "dedup_keys": None,
-           "drain_all": None, "notice_blocked_hangup": None, "defer_batch": None, "exec_atomic": None, "serve_after_script": None}
+           "drain_all": None, "notice_blocked_hangup": None, "defer_batch": None, "exec_atomic": None, "serve_after_script": None,
+           "sweep_commands": None, "exec_sweep_commands": None}
     bl = strip_comments(src("network/blocking.rs"))
     pw = fn_body(bl, "process_wakeups")
     if pw is not None:
@@ -83,8 +87,16 @@ def facts(src, strip_comments, fn_body):
         arms_skip = all((_arm(pnc, n) or "").find("conn_id") >= 0 and re.search(r"if\s+conn_id\s*==\s*0", _arm(pnc, n) or "") for n in ("LPUSH", "RPUSH"))
         out["exec_atomic"] = bool(arms_skip and re.search(r"self\s*\.\s*serve_key\s*\(", he))
     if pnc:
-        # (no model switch: scripts and RENAME are outside the Lean machine; read by lib/c13.py only)
+        # (no model switch: scripts and RENAME are outside the Lean machine; read by lib/c13.py and by the table theorem
+        #  Ferrous.C13.sweep_covers_scripts_and_rename)
         out["serve_after_script"] = bool(re.search(r"blocked_keys\s*\(", pnc) and re.search(r"serve_key\s*\(", pnc))
+        # which command names trigger the sweep: `matches!(command_name.as_str(), "A" | "B" …) {` directly before blocked_keys(db)
+        m = re.search(r"matches!\(\s*command_name\s*\.\s*as_str\(\)\s*,\s*((?:\"[A-Z]+\"\s*\|?\s*)+)\)\s*\{\s*for\s+\w+\s+in\s+self\s*\.\s*blocking_manager\s*\.\s*blocked_keys\s*\(", pnc)
+        out["sweep_commands"] = re.findall(r"\"([A-Z]+)\"", m.group(1)) if m else None
+    he2 = fn_body(sv, "handle_exec")
+    if he2 is not None:
+        m = re.search(r"matches!\(\s*name\s*\.\s*as_str\(\)\s*,\s*((?:\"[A-Z]+\"\s*\|?\s*)+)\)\s*&&\s*!\s*swept_dbs", he2)
+        out["exec_sweep_commands"] = re.findall(r"\"([A-Z]+)\"", m.group(1)) if (m and re.search(r"blocked_keys\s*\(", he2)) else None
     wc = fn_body(sv, "wake_client")
     if wc is not None and "send_frame" in wc and ("lpop" in wc and "rpop" in wc):
         out["unregister_all"] = bool(re.search(r"unregister_client\s*\(", wc))
@@ -126,5 +138,12 @@ def generate(src, strip_comments, fn_body, header):
     item("noticeBlockedHangup", "Bool", f["notice_blocked_hangup"], "process_connections probes blocked connections with Connection::peer_closed()", "process_connections not recognised")
     item("deferBatchWhenBlocked", "Bool", f["defer_batch"], "process_connection keeps the frames behind a blocking pop that blocked (deferred_frames)", "process_connection not recognised")
     item("execAtomic", "Bool", f["exec_atomic"], "queued pushes do not notify (conn_id == 0); handle_exec serves the pushed keys afterwards (serve_key)", "handle_exec not recognised")
+    for nm, key, doc in (("sweepCommands", "sweep_commands", "commands after which process_normal_command serves the blocked keys of the database"),
+                         ("execSweepCommands", "exec_sweep_commands", "queued commands after which handle_exec serves the blocked keys of the database")):
+        if f[key] is None:
+            L.append('def %s : List String := extraction_failed "%s: matches!(…) in front of the blocked_keys sweep not found"' % (nm, key))
+        else:
+            L.append("/-- %s -/" % doc)
+            L.append("def %s : List String := [%s]" % (nm, ", ".join('"%s"' % x for x in f[key])))
     L += ["", "end Ferrous.Gen.Blocking", ""]
     return "\n".join(L)
